@@ -342,7 +342,12 @@ func (ss *Sorts) structSort(st *types.Struct, name string) Sort {
 	for i := 0; i < st.NumFields(); i++ {
 		f := st.Field(i)
 		fs := ss.SortOf(f.Type())
-		info.Fields = append(info.Fields, FieldInfo{Name: f.Name(), Sel: fmt.Sprintf("%s.%s", sname, mangle(f.Name())), Sort: fs, Type: f.Type()})
+		sel := fmt.Sprintf("%s.%s", sname, mangle(f.Name()))
+		if f.Name() == "_" {
+			// blank fields may repeat (padding, noCopy markers in dependency structs): one accessor each
+			sel = fmt.Sprintf("%s._%d", sname, i)
+		}
+		info.Fields = append(info.Fields, FieldInfo{Name: f.Name(), Sel: sel, Sort: fs, Type: f.Type()})
 	}
 	ss.order = append(ss.order, s)
 	return s
